@@ -51,6 +51,7 @@ namespace mc
         long item;
         int op;
         int in_case;
+        int redo; // bfs: the interrupted transition must be executed again by the resumed worker
     };
     struct Shared
     {
@@ -717,7 +718,8 @@ namespace mc
             harness_error("cannot open %s", rn.c_str());
         if (resume)
         {
-            bfs_item(slot->item, slot->op + 1, rec);
+            bfs_item(slot->item, slot->op + (slot->redo ? 0 : 1), rec);
+            slot->redo = 0;
             fflush(rec);
         }
         long n = (long)g_front.hist.size();
@@ -910,7 +912,8 @@ namespace mc
                 bool en = m->apply(bfs_op);
                 if (to_stdout)
                     printf("enabled=%d key=%s\n", (int)en, en && !case_viol ? clean(m->key()).c_str() : "-");
-                commit_case(true);
+                if (to_stdout)
+                    commit_case(true); // a hang-confirmation run is executed again by the resumed worker
             }
             else
             {
@@ -1081,7 +1084,7 @@ namespace mc
                         }
                         else
                             choices.assign(sl.ch, sl.ch + sl.chlen);
-                        int st2 = run_case_alone(c, choices, g_case_limit * 10, fmt("%s/w%d.log", g_out.c_str(), MAXW - 1), false);
+                        int st2 = run_case_alone(c, choices, g_case_limit * 4, fmt("%s/w%d.log", g_out.c_str(), MAXW - 1), false);
                         if (st2 == -1)
                         {
                             kind = "hang";
@@ -1089,9 +1092,11 @@ namespace mc
                         }
                         else if (WIFEXITED(st2) && WEXITSTATUS(st2) <= 1)
                         {
-                            report = false; // slow, not hung; its result was logged by the confirm run
-                            if (!c.is_bfs)
-                                ;
+                            report = false; // slow, not hung
+                            // tree: the confirm run logged and counted the case. bfs: the successor record
+                            // of that transition was never written, so the resumed worker runs it again.
+                            if (c.is_bfs)
+                                sl.redo = 1;
                         }
                         else
                             kind = death_kind(st2, err);
@@ -1153,6 +1158,24 @@ namespace mc
                     hangkill[w] = true;
                     kill(pid[w], SIGKILL);
                 }
+            }
+            if (now() > g_deadline + 10 && !S->stop.load())
+            { // workers notice the deadline between cases; this is the backstop
+                S->stop.store(1);
+                if (std::find(r.caps.begin(), r.caps.end(), "deadline") == r.caps.end())
+                    r.caps.push_back("deadline");
+            }
+            if (S->stop.load() && now() > g_deadline + 10 + g_case_limit)
+            {
+                for (int w = 0; w < nw; w++)
+                    if (pid[w])
+                    {
+                        kill(pid[w], SIGKILL);
+                        int st;
+                        waitpid(pid[w], &st, 0);
+                        pid[w] = 0;
+                        live--;
+                    }
             }
             if (!any)
                 usleep(3000);
